@@ -314,7 +314,8 @@ class Surface(Harness):
     @property
     def bounds(self):
         return "dialect %s, shape %s, one string leaf of length %d%s, configuration %s" % (
-            self.dialect, self.shape, self.n, " used as a parameter name" if self.shape == "namekey" else "", self.cfg)
+            self.dialect, self.shape, self.n, {"namekey": " used as a parameter name", "ptrkey": " used as a parameter name "
+                                               "after '^'", "nskey": " inside the parameter name NS<x>EL"}.get(self.shape, ""), self.cfg)
 
     def inputs(self, ctx):
         inp = {"x": rt.leaf_inputs(ctx, "str", self.n, self.dialect)}
@@ -322,10 +323,11 @@ class Surface(Harness):
 
     def prop_fn(self, L, inp):
         x = inp["x"]
-        listmods = self.shape == "namekey"
+        listmods = self.shape in ("namekey", "ptrkey", "nskey")
         if listmods:
             M, G, O = list_classes(L)
-            m = M([("first", 1), (x, 2), ("g", G([(x, 3), ("longer_name", 4)])), ("o", O([("c", 5)]))])
+            key = {"namekey": x, "ptrkey": "^" + x, "nskey": "NS" + x + "EL"}[self.shape]
+            m = M([("first", 1), (key, 2), ("g", G([(key, 3), ("longer_name", 4)])), ("o", O([("c", 5)]))])
         else:
             m = rt.shape_module(L, self.shape, x)
         d, E, cfg = rt.make_encoder(L, self.dialect, self.cfg, inp, listmods=listmods)
@@ -347,8 +349,8 @@ def obligations(tier):
     obs = []
     nmax = 2 if tier == "quick" else 3
     for dia in ("PVL", "ODL", "PDS3", "ISIS"):
-        for shape in list(rt.SHAPES) + ["namekey"]:
-            if shape in ("quant", "wrapunits") or (shape == "namekey" and dia in ("PVL", "ISIS")):
+        for shape in list(rt.SHAPES) + ["namekey", "ptrkey", "nskey"]:
+            if shape in ("quant", "wrapunits") or (shape in ("namekey", "ptrkey", "nskey") and dia in ("PVL", "ISIS")):
                 continue
             for n in range(0, nmax + 1):
                 obs.append(Surface(dialect=dia, shape=shape, n=n, cfg="default"))
